@@ -286,7 +286,9 @@ def resolve_guard(fn, expr, pol=True, depth=0):
         if not pol:
             # negate: not (a < b) == b <= a ; not (a <= b) == b < a ; not == is != ...
             op, a, b = expr.ops[0], expr.left, expr.comparators[0]
-            neg = {ast.Lt: (ast.LtE, True), ast.LtE: (ast.Lt, True), ast.Eq: (ast.NotEq, False), ast.NotEq: (ast.Eq, False)}.get(type(op))
+            # only (in)equality may be negated: `not (a >= b)` is NOT `a < b` when a is NaN, and "a NaN residual is never
+            # accepted" is exactly what C05.a has to see
+            neg = {ast.Eq: (ast.NotEq, False), ast.NotEq: (ast.Eq, False)}.get(type(op))
             if neg is not None:
                 newop, swap = neg
                 expr = ast.Compare(left=b if swap else a, ops=[newop()], comparators=[a if swap else b])
